@@ -75,7 +75,8 @@ VARIABLES
   phase,     \* "fork" | "branch"
   fork,      \* [Paths -> File]  tree at the fork point
   base,      \* [Paths -> File]  tree at the merge base of branch and base branch (= fork until the base branch is merged)
-  mainNew,   \* [Paths -> [top, end : Seq(Rule)]]  rules the base branch inserted since the merge base
+  mainNew,   \* [Paths -> [top, end, mid : Seq(Rule)]]  what the base branch did since the merge base: rules inserted at
+             \*      the top / end of the file, and (mid # <<>>) its edited version of the merge-base rules
   nmerge,
   tree,      \* [Paths -> File]  working tree of the branch after the commits so far
   changes,   \* Impl: []*git.FileChange as folded so far
@@ -446,7 +447,7 @@ Inv_C20 == (phase = "branch" /\ ~ambig /\ ~Unparsed /\ ~(nmerge > 0 /\ Stale)) =
 -----------------------------------------------------------------------------
 (* Actions                                                                 *)
 NoNS == [status |-> "", src |-> NoPath, dst |-> NoPath]
-NoNew == [p \in Paths |-> [top |-> <<>>, end |-> <<>>]]
+NoNew == [p \in Paths |-> [top |-> <<>>, end |-> <<>>, mid |-> <<>>]]
 Init ==
   /\ phase = "fork"
   /\ fork = [p \in Paths |-> AbsentFile] /\ tree = [p \in Paths |-> AbsentFile]
@@ -630,7 +631,7 @@ Commit(o) ==
 
 \* A commit on the base branch after the fork inserts one rule at the top or at the end of a file. It is invisible to
 \* `git log base..HEAD` and to the merge base until the base branch is merged into the branch.
-MainFile(b, mn, p) == [b[p] EXCEPT !.rules = mn[p].top \o @ \o mn[p].end]
+MainFile(b, mn, p) == [b[p] EXCEPT !.rules = mn[p].top \o (IF mn[p].mid = <<>> THEN @ ELSE mn[p].mid) \o mn[p].end]
 ZZ(n) == [kind |-> "rec", name |-> "zz" \o ToString(n), body |-> "v1", lab |-> "l1", cmt |-> "none", pad |-> 0, ext |-> "x0"]
 BaseAdvance(p, where) ==
   /\ phase = "branch" /\ Has("BaseAdvance") /\ nbase < MaxBaseAdv
@@ -641,6 +642,22 @@ BaseAdvance(p, where) ==
      /\ log' = Append(log, [Mk("BaseAdvance", "B", p, p, MainFile(base, mn, p)) EXCEPT !.op = "BaseAdvance" \o where])
   /\ nbase' = nbase + 1
   /\ UNCHANGED <<phase, fork, base, nmerge, tree, changes, origin, tomb, ambig, prevTree, lastNS, ncommit>>
+
+\* A commit on the base branch edits one rule in place (labels or expression). Unmerged, it must stay invisible: the
+\* documented comparison is merge base (= fork point) against HEAD, whatever the tip of the base branch holds by now.
+BaseAdvanceEdit(p, k, r2) ==
+  /\ phase = "branch" /\ Has("BaseAdvance") /\ nbase < MaxBaseAdv
+  /\ p \notin Excluded /\ base[p].present /\ k \in 1..Len(base[p].rules)
+  /\ LET cur == IF mainNew[p].mid = <<>> THEN base[p].rules ELSE mainNew[p].mid
+         new == [cur EXCEPT ![k] = r2]
+         mn  == [mainNew EXCEPT ![p].mid = IF new = base[p].rules THEN <<>> ELSE new] IN
+     /\ r2 # cur[k]
+     /\ mainNew' = mn
+     /\ log' = Append(log, [op |-> "BaseAdvanceedit", ns |-> [status |-> "B", src |-> p, dst |-> p],
+                            file |-> MainFile(base, mn, p), more |-> <<>>, k |-> k, rule |-> r2])
+  /\ nbase' = nbase + 1
+  /\ UNCHANGED <<phase, fork, base, nmerge, tree, changes, origin, tomb, ambig, prevTree, lastNS, ncommit>>
+MainRule(p, k) == IF mainNew[p].mid = <<>> THEN base[p].rules[k] ELSE mainNew[p].mid[k]
 
 \* `git merge <base branch>` on the branch. The merged content (also the resolution of conflicts) is: the branch's
 \* version of every file plus the rules the base branch inserted into the file it descends from; insertions into files
@@ -653,6 +670,7 @@ MergedTree ==
      ELSE tree[q]]
 MergeBase ==
   /\ phase = "branch" /\ Has("MergeBase") /\ nmerge < MaxMerge /\ mainNew # NoNew
+  /\ \A p \in Paths : mainNew[p].mid = <<>>      \* in-place edits of the base branch are only explored unmerged
   /\ tree' = MergedTree /\ prevTree' = MergedTree /\ lastNS' = NoNS
   /\ base' = [p \in Paths |-> MainFile(base, mainNew, p)]
   /\ mainNew' = NoNew /\ nmerge' = nmerge + 1
@@ -664,6 +682,8 @@ Next ==
   \/ \E p \in Paths : \/ \E r \in NewRules : ForkAppend(p, r)
                       \/ ForkEmptyFile(p) \/ ForkFileDisable(p)
                       \/ \E w \in {"top", "end"} : BaseAdvance(p, w)
+                      \/ \E k \in 1..Len(base[p].rules) :
+                            \E r2 \in LabelVariants(MainRule(p, k)) \cup ExprVariants(MainRule(p, k)) : BaseAdvanceEdit(p, k, r2)
   \/ StartBranch
   \/ MergeBase
   \/ \E o \in Candidates : Commit(o)
@@ -676,6 +696,8 @@ Hint ==
    dup   |-> \E pk \in HeadRules : Cardinality({j \in 1..Len(tree[pk[1]].rules) :
                                        Key(tree[pk[1]].rules[j]) = Key(tree[pk[1]].rules[pk[2]])}) >= 2,
    moved |-> \E p \in Paths : tree[p].present /\ origin[p] # p,
+   basetouch |-> \E i \in 1..Len(changes) : changes[i].before \in Paths
+                                               /\ MainFile(base, mainNew, changes[i].before) # base[changes[i].before],
    ambig |-> ambig, stale |-> Stale, unparsed |-> Unparsed, merged |-> nmerge > 0,
    acc   |-> UNION {RefAccept(pk[1], pk[2]) : pk \in HeadRules}]
 EmitCase ==
